@@ -27,6 +27,7 @@ REQUIRED = {
         'monotonicity-pairs': 3000,
         'array-vs-scalar': 200,
         'shuffled-array-vs-scalar': 200,
+        'integer-levels': 200,
         'narrow-spike-sets': 40,
     }
     for tier in ('quick', 'thorough')
@@ -65,6 +66,8 @@ def check_set(ctx, rng, params, nlevels):
         elif r < 0.45:
             k = rng.choice(knots)
             levels.append(min(hi, float(np.nextafter(k, rng.choice([-1e9, 1e9]))) if rng.random() < 0.5 else min(hi, k + rng.choice([-1, 1]) * 1e-9 * max(1.0, abs(k)))))
+        elif r < 0.6:
+            levels.append(float(min(hi, max(lo - 5, round(rng.uniform(lo, hi))))))
         else:
             levels.append(rng.uniform(lo, hi))
     levels.append(hi)
@@ -74,6 +77,9 @@ def check_set(ctx, rng, params, nlevels):
     for z in levels:
         rec.case()
         zz = z if rng.random() < 0.7 else np.float64(z)
+        if float(z).is_integer() and rng.random() < 0.5:
+            zz = int(z)
+            rec.hit('integer-levels')
         try:
             v = float(T(zz))
         except Exception as exc:  # pylint: disable=broad-except
